@@ -1,6 +1,6 @@
 (* C10 — The grammar is read-only during synthesis and search.
    Only statements closed by [exact]; Print Assumptions; non-vacuity example. *)
-From GE Require Import Base Tape Grammar Synth SynthFrame.
+From GE Require Import Base Tape Grammar Synth SynthFrame WellTyped Sat Linear DistProofs SynthSat SynthDepth MapProofs.
 Open Scope Z_scope.
 
 (* one call of create_node — any type, context, sibling values, decider (grow, full, PI-grow,
@@ -24,6 +24,17 @@ Theorem C10_choose_keeps_productions : forall g k key alts ctx st,
   st_alts (snd (choose g k key alts ctx st)) = st_alts st.
 Proof. exact keeps_choose. Qed.
 Print Assumptions C10_choose_keeps_productions.
+
+(* mapping a genotype (GE, structured GE, dynamic structured GE) and tree mutation / crossover leave the productions as they were,
+   whatever the genotype, decider, source and outcome *)
+Theorem C10_mapping_and_variation_keep_productions : forall fuel g,
+  (forall k dna, st_alts (snd (ge_map fuel g k dna)) = r_alts (g_reg g)) /\
+  (forall k infra, st_alts (snd (sge_map fuel g k infra)) = r_alts (g_reg g)) /\
+  (forall D s dna, st_alts (snd (dsge_map fuel g D s dna)) = r_alts (g_reg g)) /\
+  (forall k rctx st, st_alts (snd (tree_mutate fuel g k rctx st)) = st_alts st) /\
+  (forall k donor rctx st, st_alts (snd (tree_cross_child fuel g k donor rctx st)) = st_alts st).
+Proof. exact mappings_keep_productions. Qed.
+Print Assumptions C10_mapping_and_variation_keep_productions.
 
 (* ---- non-vacuity: a run that backtracks (the dependent refinement VarRange(sibling list) is
    infeasible for the empty list) and still returns a program, productions untouched ---- *)
